@@ -369,6 +369,9 @@ func parseAll(data []byte) []any {
 	doc, k, t := readDoc(data, "")
 	add("auto", k, t, doc)
 	for _, f := range []string{"spdx23", "cdx13", "cdx15"} {
+		if leaked {
+			break // a call outlived its deadline and is still running: no further calls in this process
+		}
 		doc, k, t := readDoc(data, trFormats[f])
 		add(f, k, t, doc)
 	}
@@ -435,6 +438,7 @@ func faultRun(args []string) error {
 		ev["results"] = parseAll(data)
 		w.write(ev)
 		w.flush()
+		exitIfLeaked(w)
 	}
 	faulted := func(faults [][2]string) ([]byte, bool) {
 		if len(faults) == 0 {
